@@ -56,6 +56,10 @@ CARRIER_DTYPE = {"f64": np.float64, "f32": np.float32, "i64": np.int64, "i32": n
                  "i8": np.int8}
 
 
+SCALAR_TYPE = {"np.int64": np.int64, "np.int32": np.int32, "np.uint8": np.uint8, "np.float64": np.float64,
+               "np.float32": np.float32}
+
+
 def _container(carrier, vals):
     """The same numbers in another container."""
     if carrier == "list":
@@ -91,6 +95,11 @@ def _build(leaf):
         return UnitValue(leaf["v"], _units(tuple(leaf["sys"]), tuple(leaf["dim"])))
     if k == "ua":
         return UnitArray(list(leaf["v"]), _units(tuple(leaf["sys"]), tuple(leaf["dim"])))
+    if "scalar" in leaf:        # the same plain number as a numpy scalar
+        x = SCALAR_TYPE[leaf["scalar"]](leaf["v"])
+        if F(x.item()) != F(leaf["v"]):
+            raise ValueError("%r is not representable as %s" % (leaf["v"], leaf["scalar"]))       # checker error
+        return x
     if k == "int":
         return int(leaf["v"])
     if k == "float":
@@ -121,7 +130,7 @@ def _unit_of(q):
 
 def _leaf_ref(leaf, obj):
     if leaf["k"] in NK:
-        return arith.Num(F(obj))
+        return arith.Num(F(leaf["v"]) if "scalar" in leaf else F(obj))
     if "carrier" in leaf:       # the quantity means the numbers that were handed over, whatever the container
         sc = _scale(tuple(leaf["sys"]), tuple(leaf["dim"]))
         return arith.Qty([F(v) * sc for v in leaf["v"]], leaf["dim"], True, unit=sc)
@@ -170,6 +179,8 @@ def _ev(node, out, flags, prefix=""):
     if "op" not in node:
         obj = node["_obj"] if "_obj" in node else _build(node)
         kind = node["k"] + ("." + node["carrier"] if "carrier" in node else "")
+        if "scalar" in node:
+            kind = node["scalar"]
         return obj, _leaf_ref(node, obj), kind, True
     op = node["op"]
     sub = [_ev(x, out, flags, prefix) for x in node["args"]]
@@ -187,8 +198,9 @@ def _ev(node, out, flags, prefix=""):
         res = arith.resolve(op, refs[0], refs[1])
         exp = res if isinstance(res, arith.Raises) else None
     elif op in arith.COMPARE:
+        lk = [a.get("k") for a in node["args"]]
         exact_tie = sub[0][3] and sub[1][3] and (
-            kinds[0] in NK or kinds[1] in NK or node["args"][0]["sys"] == node["args"][1]["sys"])
+            lk[0] in NK or lk[1] in NK or node["args"][0]["sys"] == node["args"][1]["sys"])
         exp = arith.compare(op, refs[0], refs[1], tie_is_exact=exact_tie)
     elif op in arith.UNARY:
         exp = arith.unary(op, refs[0])
@@ -206,7 +218,10 @@ def _ev(node, out, flags, prefix=""):
     try:
         if op == "pow":
             num, den = node["p"]
-            got = objs[0] ** (num if den == 1 else num / den)
+            pw = num if den == 1 and not node.get("pfloat") else num / den
+            if "pscalar" in node:
+                pw = SCALAR_TYPE[node["pscalar"]](pw)
+            got = objs[0] ** pw
         elif len(objs) == 1:
             got = OPF[op](objs[0])
         else:
@@ -216,6 +231,11 @@ def _ev(node, out, flags, prefix=""):
     flags.append("op")
     if "_rec" in node:
         node["_rec"].append((exc, got))
+    sc = [a["scalar"] for a in node["args"] if "scalar" in a] + ([node["pscalar"]] if "pscalar" in node else [])
+    if exc is not None and sc and not isinstance(exp, arith.Raises):
+        # the library refuses this type of plain number: counted, not reported (only wrong answers are)
+        flags.append("scalar_carrier_rejected:%s:%s" % (op, sc[0]))
+        raise _Stop()
 
     after = [_snap(o) for o in objs]
     if after != before:
@@ -253,6 +273,8 @@ def _ev(node, out, flags, prefix=""):
         raise _Stop()       # a bool is never an operand of a further node
 
     if op == "pow":
+        if "pscalar" in node:
+            site = "pow:uv,%s" % node["pscalar"]
         vals = _check_quantity(site, got, exp.dim, False, 1, out)
         if vals is None:
             raise _Stop()
@@ -314,10 +336,38 @@ def _evaluate(case):
             pass
         except _Rejected:
             flags.append("carrier_rejected")
+        out, flags = _observed_only(case["expr"], out, flags)
     except Exception as e:      # noqa: BLE001 - construction of an operand failed, or the checker is wrong
         out.append(("C05:%s:unexpected-exception" % case.get("sub", "case"),
                     "%s: %s (outside an operator call)" % (type(e).__name__, e)))
     return out, flags
+
+
+# numpy scalar types under which numpy itself carries out part of the arithmetic with its own promotion rules
+# (NEP 50: a python float next to np.float32 computes in float32; unary minus of an unsigned scalar wraps).  The
+# statement's "plain numbers" are python numbers and the numpy scalars that compute in double precision without
+# wrap-around; these two are enumerated and OBSERVED, not judged - except that a comparison must return a real bool
+# whatever the type, with the exact outcome when the number is a small integer (exact in float32 / uint8).
+OBSERVED_ONLY = ("np.uint8", "np.float32")
+
+
+def _observed_only(expr, out, flags):
+    if "op" not in expr:
+        return out, flags
+    sc = [a["scalar"] for a in expr["args"] if "scalar" in a] + ([expr["pscalar"]] if "pscalar" in expr else [])
+    if not sc or sc[0] not in OBSERVED_ONLY:
+        return out, flags
+    op, typ = expr["op"], sc[0]
+    rejected = [f for f in flags if f.startswith("scalar_carrier_rejected:")]
+    status = "rejected" if rejected else ("inexact" if out else "exact")
+    keep = []
+    if op in arith.COMPARE:
+        num = [a for a in expr["args"] if "scalar" in a][0]
+        integral = F(num["v"]).denominator == 1
+        keep = [v for v in out if v[0].endswith(":result-type") or (integral and v[0].endswith(":wrong-outcome"))]
+    flags = [f for f in flags if not f.startswith("scalar_carrier_rejected:")]
+    flags.append("scalar_carrier_observed:%s:%s:%s" % (op, typ, status))
+    return keep, flags
 
 
 def check_case(case):
@@ -849,6 +899,43 @@ def _spaces(tier):
                      Block([COMBOS, ["ctor", "setter"], ARITH5, ["uv", "ua", "same"], [0, 1], CSYS2, CDIMS],
                            b_car_q)]))
 
+    # (g) scalar carriers: the plain-number operand as python int/float and as numpy scalars
+    SCOMBOS = [("int", None, 3), ("int", "np.int64", 3), ("int", "np.int32", 3), ("int", "np.uint8", 3),
+               ("float", None, 3.0), ("float", None, 2.5), ("float", "np.float64", 3.0), ("float", "np.float64", 2.5),
+               ("float", "np.float32", 3.0), ("float", "np.float32", 2.5)]
+    SQV = [3.0, 7.0, 2.0]
+    SDIMS = [(0, 0, 0), (1, -1, 0)]
+
+    def snum(c):
+        lf = _n(c[0], c[2])
+        if c[1]:
+            lf["scalar"] = c[1]
+        return lf
+
+    def b_sc(c, qv, dim, sys3, opk, order):
+        op, qk = opk
+        q = _q(qk, [qv, qv + 4.5], sys3, dim) if qk == "ua" else _q("uv", [qv], sys3, dim)
+        n = snum(c)
+        return {"sub": "scalars", "expr": {"op": op, "args": [q, n] if order == 0 else [n, q]}}
+
+    def b_sc_pow(c, qv, dim, sys3):
+        fr = F(c[2])
+        node = {"op": "pow", "args": [_q("uv", [qv], sys3, dim)], "p": [fr.numerator, fr.denominator]}
+        if c[1]:
+            node["pscalar"] = c[1]
+        elif c[0] == "float":
+            node["pfloat"] = True       # the exponent is handed over as a python float even when integral
+        return {"sub": "scalars", "expr": node}
+    SOPK = [(o, k) for o in ARITH5 for k in QK] + [(o, "uv") for o in CMP6]
+    sp.append(Space("scalars: the plain-number operand as python int / float and as np.int64 / np.int32 / np.float64 "
+                    "(JUDGED) and as np.uint8 / np.float32 (OBSERVED ONLY: numpy's own promotion rules apply; only "
+                    "the bool-ness of comparisons, and their outcome for integral numbers, is judged) "
+                    "(10 type x value combinations, values 3 and 2.5) x quantity values "
+                    "{3 (tie), 7, 2} x dimension {zero, (1,-1,0)} x 2 systems x {+ - * / %% on scalar and array "
+                    "quantities, 6 comparisons on scalar quantities} x both orders ; scalar quantity ** that number",
+                    [Block([SCOMBOS, SQV, SDIMS, CSYS1, SOPK, [0, 1]], b_sc),
+                     Block([SCOMBOS, SQV, SDIMS, CSYS1], b_sc_pow)]))
+
     # (e) histories on the same operand objects
     HA, HB, HC = ("mm", "ds", "mmol"), ("cm", "s", "cmol"), ("dm", "cs", "dmol")
     TRIPLES = [(HA, HB, HC), (si.DEFAULT, si.MIXED[0], si.MIXED[3])]
@@ -993,6 +1080,8 @@ def _work(job):
                 acc.count(f)
             elif f.startswith("skipped:"):
                 acc.count("near_tie_or_undefined_skipped:" + f[8:])
+            elif f.startswith("scalar_carrier_rejected:") or f.startswith("scalar_carrier_observed:"):
+                acc.count(f)
         for key, what in viol:
             acc.violation(key, what, case)
         if i < 2:
@@ -1023,6 +1112,16 @@ def run(ctx):
              "operator calls executed; a case is non-trivial when its quantity operands are stored in at least "
              "two different unit systems, or a plain number has to be given units, or the operation must raise, "
              "or it is a power; a history case is non-trivial when at least one step precedes its last operator call")
+    ctx.note("scalar_carriers_observed_only",
+             "np.uint8 and np.float32 plain-number operands are enumerated but not judged for + - * / % **: with them "
+             "numpy carries out part of the arithmetic under its own promotion rules (NEP 50: python float next to "
+             "np.float32 computes in float32; unary minus of an unsigned scalar wraps), e.g. UnitValue(5,'mm') - "
+             "np.uint8(3) = 258 mm, UnitValue(7,'mm') / np.float32(3) = 2.33333349 mm; counters "
+             "scalar_carrier_observed:<op>:<type>:<exact|inexact|rejected>. Comparisons must return a real bool "
+             "whatever the type; their outcome is judged for integral numbers")
+    ctx.assume("'plain numbers' = python int / float and the numpy scalar types that compute in double precision "
+               "without wrap-around in these expressions (np.int64, np.int32, np.float64); np.uint8 / np.float32 are "
+               "observed only")
     ctx.assume("exact SI scales of mc/ref/si.py; results compared in exact rational arithmetic with relative "
                "tolerance 1e-12 of the operand scale (sum of |terms| for sums); comparisons and the range of %% are "
                "not judged inside a relative 1e-9 band around their discontinuity (counted as skipped); %% is "
